@@ -53,6 +53,10 @@ pub fn item_alphabet() -> Vec<String> {
             "V($T) W($T) X Y",
             "V V W W",
             "v w",
+            // a unit-like variant before / between the two variants of a clash (positions must name the clashing ones)
+            "U V($T) W($T)",
+            "V($T) U W($T)",
+            "U V($T) V",
         ] {
             items.push(format!("enum {x} {{ {vs} }}"));
         }
